@@ -271,7 +271,7 @@ def gen(rng, tier):
     cases = []
     # -- PyPath.v against os.path / bytes.split / unquote: bounded-exhaustive + random
     alpha = [b"/", b".", b"a"]
-    for s in _exhaustive(alpha, 5 if quick else 8):
+    for s in _exhaustive(alpha, 5 if quick else 7):
         cases.append({"k": "norm", "s": H(s)})
     for s in _exhaustive(alpha + [b"\x00"], 3 if quick else 5):
         cases.append({"k": "segs", "s": H(s)})
@@ -296,7 +296,7 @@ def gen(rng, tier):
             cases.append({"k": "child", "parent": H(p), "name": H(s), "t": "bb"})
             cases.append({"k": "pre", "parent": H(p), "name": H(s), "t": "bb"})
     # -- FilePath: random hostile names, prefix-sharing siblings
-    for _ in range(500 if quick else 8000):
+    for _ in range(500 if quick else 4000):
         parent = rng.choice(PARENTS)
         r = rng.random()
         name = _sibling_attack(rng, parent) if r < 0.35 else _rand_path(rng)
@@ -310,7 +310,7 @@ def gen(rng, tier):
             segs = [b"..", _segs(os.path.abspath(parent) + b"/q")[-2] + b"bar"] if _segs(os.path.abspath(parent)) else segs
         cases.append({"k": "desc", "parent": H(parent), "segs": [H(s) for s in segs], "t": rng.choice(["bb", "ss"])})
     # -- static.File through the real HTTP stack
-    for _ in range(400 if quick else 6000):
+    for _ in range(400 if quick else 3000):
         n = rng.randrange(1, 6)
         segs = [rng.choice(URLSEGS) for _ in range(n)]
         if rng.random() < 0.15:
@@ -455,7 +455,7 @@ SPEC = Spec(
     to_coq=to_coq,
     nontrivial=lambda c, o: c["k"] in ("child", "pre", "desc", "static"),
     histogram=histogram,
-    rule="os.path.normpath for every string over {'/','.','a'} up to length 5 (thorough 8), abspath/split up to 3 (5) "
+    rule="os.path.normpath for every string over {'/','.','a'} up to length 5 (thorough 7), abspath/split up to 3 (5) "
          "with NUL, join for all pairs up to 2x2 (3x3), random hostile strings; unquote+UTF-8 validity on random "
          "percent strings; FilePath.child and preauthChild for EVERY name over {'/','.','a'} up to length 3 (5) under "
          "parents /, //, /a, /a/b, /aa, plus random hostile names (NUL, non-UTF-8, backslash, %2e, '..' runs) with a "
